@@ -261,6 +261,26 @@ def second_readers(run, repo, prel, tok_phase, rule='R12.reader'):
             cands = [v for s2, v, c2 in defs.get(a.id, []) if s2.lineno < st.lineno] if isinstance(a, ast.Name) else [a]
             srcs.append(cands)
         parsed = all(any(isinstance(x, ast.Attribute) and x.attr in ('g', 'p') for x in ast.walk(v)) for cands in srcs for v in cands) and all(srcs)
+        if not parsed and len(args) >= 2:
+            # the operators may be parsed one by one and their fields collected in lists: decided by dependence (every
+            # definition of the string source that reaches this return depends on a .g, and every one of the phase source on a
+            # .p, of what pauli() returned)
+            from ..names import expr_deps, local_deps
+            dps = local_deps(f)
+
+            def reaching(a):
+                if not isinstance(a, ast.Name):
+                    return [a]
+                here = [(norm(t), pol) for t, pol in ctx.conds]
+                out = []
+                for s2, v, c2 in defs.get(a.id, []):
+                    there = [(norm(t), pol) for t, pol in c2.conds]
+                    if s2.lineno < st.lineno and there == here[:len(there)]:
+                        out.append(v)
+                return out
+            rg, rp_ = reaching(args[0]), reaching(args[1])
+            parsed = bool(rg) and bool(rp_) and all({('attr', 'g'), ('call', 'pauli')} <= expr_deps(f, v, dps) for v in rg) \
+                and all({('attr', 'p'), ('call', 'pauli')} <= expr_deps(f, v, dps) for v in rp_)
         if parsed:
             continue
         # a private decoder: evaluate its phase expression on the writer's phase tokens
